@@ -162,6 +162,10 @@ class Gen:
     def code_cmd(self, k, sep=":"):
         rng = self.rng
         code = rng.choice(CODES)
+        while sep == "~" and code in ("jetres", "jettrees"):
+            # JETTISON* edits the sender's own outgoing queue; the model treats it as a no-op, which is exact only when the queue is
+            # empty, i.e. as a command of its own after the previous one has been pumped out -- not inside a batch or a cut stream
+            code = rng.choice(CODES)
         pats = uniq([rng.choice([self.abs_target(k), "/*/*", "/*/*", "*", "/*/%d" % self.other(k), self.subpat(k)]) for _ in range(rng.choice([0, 1, 1, 2]))])
         return ("k:%d:%s:%s" % (k, code, "&".join(pats))) if sep == ":" else ("k~%s~%s" % (code, "&".join(pats)))
 
@@ -280,7 +284,38 @@ def overlap_case(rng, end):
     return ops + ";x:0:%s:s~0~%s=9+r~0~q" % (end, node)
 
 
+def filtered_detach_case(rng, end):
+    """a subscriber with FILTERED subscriptions leaves while some node that matches a subscription's path is rejected by its filter
+    (marks are placed by path alone, so they must go by path alone; the second seeded Cleanup regression walked with the filters on)"""
+    flt = rng.choice(["g5", "l3", "e4", "g2", "l7"])
+    def rejects(v):
+        n = int(flt[1:])
+        return not {"g": v > n, "l": v < n, "e": v == n}[flt[0]]
+    vals_bad = [v for v in range(10) if rejects(v)]
+    vals_ok = [v for v in range(10) if not rejects(v)] or [0]
+    pat = rng.choice(["x*", "xy", "*", "?y", "xy,xz", "*/y", "x*/*"])
+    other = rng.choice(["", "&*y", "&xz@x", "&/*/*/x*"])
+    nodes = ["xy", "xz", "xy/y", "x/y", "y"]
+    sets = "&".join("%s=%d" % (p, rng.choice(vals_bad if rng.random() < 0.6 else vals_ok)) for p in rng.sample(nodes, rng.choice([2, 3, 4])))
+    order = rng.random()
+    if order < 0.4:      # subscribe first, nodes later
+        body = "p:1:0:%s@%s%s;s:0:0:%s" % (pat, flt, other, sets)
+    elif order < 0.8:    # nodes first, then the subscription
+        body = "s:0:0:%s;p:1:0:%s@%s%s" % (sets, pat, flt, other)
+    else:                # matching when subscribed, rejected later
+        body = "s:0:0:xy=%d&xz=%d;p:1:0:%s@%s%s;s:0:0:xy=%d" % (rng.choice(vals_ok), rng.choice(vals_ok), pat, flt, other, rng.choice(vals_bad))
+    third = rng.choice(["", "a:G;p:2:0:x*@%s&xy;" % flt])
+    tail = ";s:0:0:xy=%d;a:H;s:0:0:q=1;d:0" % rng.choice(range(10)) if rng.random() < 0.5 else ""
+    if end == "d":
+        return "a:H;a:%s;%s%s;d:1%s" % (rng.choice(["H", "G"]), third, body, tail)
+    return "a:H;a:%s;%s%s;x:1:%s:u~q+s~0~z=1" % (rng.choice(["H", "G"]), third, body, end)
+
+
 DIRECTED = [
+    # a filtered subscriber leaves while the filter rejects a matching node (second seeded Cleanup regression)
+    "a:H;a:H;s:0:0:xy=3&xz=7;p:1:0:x*@g5;d:1;s:0:0:xy=9;a:H;d:0",
+    "a:H;a:G;p:1:0:x*@g5&xy@l2;s:0:0:xy=3&xz=7&xy/y=1;s:0:0:xz=1;x:1:some:u~xy+s~0~q=1",
+
     # the seeded shape, detach and cut variants
     "a:H;a:H;p:1:0:x*&xy;s:0:0:xy=1;u:1:xy;d:0",
     "a:H;a:H;p:1:0:x*&xy;s:0:0:xy=1;u:1:xy;x:0:all:s~0~z=1",
@@ -319,7 +354,7 @@ class CHECK(vlib.Check):
                 "BounceMessage, the PR_NAME_PRIVILEGE_BITS branches of SETPARAMETERS/RemoveParameter, client-to-client routing with the "
                 "PR_NAME_SESSION overwrite (PassMessageCallback, broadcast), SetDataNode's leading-'/' test, AdjustStringPrefix(NULL); "
                 "privilege assignment at attach; ReflectServer::EndSession/ClearLameDucks.  Not modelled: ban patterns, default Message "
-                "route and routing-flag parameters, reply contents of GETPARAMETERS/GETDATATREES, JETTISON*, ordered indices "
+                "route and routing-flag parameters, reply contents of GETPARAMETERS/GETDATATREES, JETTISON* (no-op: exact when the sender's outgoing queue is empty, so never generated inside a batch or cut stream), ordered indices "
                 "(INSERTORDEREDDATA/REORDERDATA: harness frame oracle only), sockets and the event loop.")
     premises = ["MatchLaws (Refl/BaseProofs.v; C15): clause text equality is decidable, '*' matches every name, a clause reported unique / "
                 "list-of-unique-values matches exactly its keys -- premise of detach_clean and as_if_never (frame_own_subtree needs nothing)",
@@ -347,6 +382,8 @@ class CHECK(vlib.Check):
             out.append(("overlap", "o|" + overlap_case(rng, rng.choice(["d", "some", "some"]))))
         for _ in range(2 if quick else 12):
             out.append(("overlap-all", "o|" + overlap_case(rng, "all")))
+        for _ in range(14 if quick else 80):
+            out.append(("filtered-detach", "f|" + filtered_detach_case(rng, rng.choice(["d", "d", "some"]))))
         n = 220 if quick else 1500
         for i in range(n):
             g = Gen(rng, hostile=rng.choice([0.2, 0.35, 0.5]), priv_hosts=(i % 3 == 0), quiet=(i % 10 == 9), filters=(i % 4 != 3))
